@@ -259,6 +259,11 @@ def r12_7_shared(repo: Repo, rep: Report):
     r20_1_fork_copies(repo, rep)
     # leaf symbols are distinct because their names are: uid() must be fresh per call
     r20_5_uid_nominal(repo, rep)
+    # the configured size candidates reach get_dyn_sizes under the name they were given
+    from hsa.rules.c18 import r18_6b_array_length_patterns
+
+    rep.rule("R18.6", "--array-lengths: validated names are extracted whole")
+    r18_6b_array_length_patterns(repo, rep)
 
 
 RULES = [r12_7_shared, r12_1_type_coverage, r12_2_allow_list, r12_3_leaf_freshness, r12_4_candidates, r12_5_static_dynamic, r12_6_create]
